@@ -285,6 +285,19 @@ void run_sweep(Stats& st) {
 		p.files[1].second = uint64_t(int64_t(0x100000000ull) + delta) - off2 - 8;    // first empty member's block starts at 2^32 + delta
 		vol_refusal_case(p, (empties + unsigned(-delta)) & 1, st, "empty_members_at_the_edge");
 	}
+	// VOL: hundreds of members with long names - tables, block headers and padding alone exceed 64 KiB - and a data total a little below
+	// 2^32 - 64 KiB: the member DATA would fit 32 bits, the block offsets do not (no allowance for "small" overhead is sound)
+	for (unsigned variant = 0; variant < 3; ++variant) {
+		if (!sw("vol_overhead_beyond_64k", variant)) continue;
+		unsigned M = variant == 0 ? 600 : variant == 1 ? 1000 : 700; size_t nameLen = variant == 0 ? 100 : variant == 1 ? 60 : 90;
+		VolPlan p; p.files = {{"a1.big", 0x7FFFFFFFull}, {"a2.big", 0}};
+		for (unsigned k = 0; k < M; ++k) { char b[16]; snprintf(b, sizeof b, "m%05u_", k); std::string nm = b; nm += std::string(nameLen - nm.size(), char('a' + k % 26)); p.files.push_back({nm, 1 + k % 3}); }
+		uint64_t small = 0; for (size_t i = 2; i < p.files.size(); ++i) small += p.files[i].second;
+		uint64_t target = 0xFFFFFFFFull - 0x10000ull - (variant == 2 ? 4096 : 8);   // total member data
+		p.files[1].second = target - 0x7FFFFFFFull - small;
+		V_CHECK(p.files[1].second <= 0x7FFFFFFFull, "harness: second big member fits its field");
+		vol_refusal_case(p, variant & 1, st, "overhead_of_many_members_pushes_offsets_past_2^32");
+	}
 	if (sw("clm_big_sources_fit")) clm_big_files_fit_case(st);
 	// CLM: data offsets crossing 2^32
 	if (sw("clm_cross", 0)) clm_refusal_case({0x60000000u, 0x60000000u, 0x60000000u}, st, "offset_crossing");
